@@ -72,7 +72,7 @@ def run(ctx):
                          ("PipeConn_dev_leak.cfg", "QuiescentFree"), ("PipeConn_dev_nodel.cfg", "QuiescentFree")])
 
     # ---- leg B
-    nsim = 2000 if T else 250
+    nsim = 1000 if T else 250
     b1 = vlib.tlc_behaviours(ctx, "PipeConn", "PipeConn_gen.cfg", simulate=nsim, depth=250,
                              cfg_text=pc.gen_cfg(Callers="{0, 1, 2}", MaxCqs="{1, 2}", MaxCalls="2", MaxStray="0", MaxDup="0"),
                              label="generator: 3 callers x 2 calls, limits 1-2, withdraw / cancel / fault anywhere")
